@@ -233,7 +233,7 @@ func pathString(r *common.Rng, p []frag) string {
 
 // genPath walks down doc: mostly existing members (indices also counted from the end), sometimes a missing
 // key, an index out of range, a fragment of the wrong kind, a wildcard or a descent.
-func genPath(r *common.Rng, doc any, allowMulti bool, hist func(string)) []frag {
+func genPath(r *common.Rng, doc any, allowMulti, mutating bool, hist func(string)) []frag {
 	var p []frag
 	cur := doc
 	exists := true
@@ -265,7 +265,15 @@ func genPath(r *common.Rng, doc any, allowMulti bool, hist func(string)) []frag 
 			}
 			continue
 		}
-		if allowMulti && x < 15 && (len(p) == 0 || p[len(p)-1].kind != 'd') {
+		hasWild := false
+		for _, f := range p {
+			if f.kind == '*' {
+				hasWild = true
+			}
+		}
+		// ojg's set/modify/remove follow only one branch of a wildcard once a descent comes after it (known
+		// finding C18-wildcard-descent-single-branch): such paths are generated for reads only
+		if allowMulti && x < 15 && (len(p) == 0 || p[len(p)-1].kind != 'd') && !(mutating && hasWild) {
 			hist("frag:descent")
 			p = append(p, frag{kind: 'd'})
 			maxLen++
@@ -394,7 +402,7 @@ func (h *harness) pathStream(nHist int) {
 			switch {
 			case x < 40:
 				multi := ctx.Rng.Chance(25)
-				p := genPath(ctx.Rng, pre, multi, ctx.Hist)
+				p := genPath(ctx.Rng, pre, multi, true, ctx.Hist)
 				var v slip.Object
 				concrete := true
 				for _, f := range p {
@@ -421,7 +429,7 @@ func (h *harness) pathStream(nHist int) {
 				}
 				ctx.Hist("op:set")
 			case x < 58:
-				p := genPath(ctx.Rng, pre, ctx.Rng.Chance(30), ctx.Hist)
+				p := genPath(ctx.Rng, pre, ctx.Rng.Chance(30), false, ctx.Hist)
 				opTerm = "(OGet " + fragsTerm(p) + ")"
 				if ctx.Rng.Chance(25) {
 					lisp = "(send b :get " + pathArg(p) + ")"
@@ -431,7 +439,7 @@ func (h *harness) pathStream(nHist int) {
 				isRead = true
 				ctx.Hist("op:get")
 			case x < 72:
-				p := genPath(ctx.Rng, pre, ctx.Rng.Chance(30), ctx.Hist)
+				p := genPath(ctx.Rng, pre, ctx.Rng.Chance(30), false, ctx.Hist)
 				opTerm = "(OHas " + fragsTerm(p) + ")"
 				if ctx.Rng.Chance(25) {
 					lisp = "(send b :has " + pathArg(p) + ")"
@@ -441,7 +449,7 @@ func (h *harness) pathStream(nHist int) {
 				isRead = true
 				ctx.Hist("op:has")
 			case x < 78:
-				p := genPath(ctx.Rng, pre, ctx.Rng.Chance(30), ctx.Hist)
+				p := genPath(ctx.Rng, pre, ctx.Rng.Chance(30), true, ctx.Hist)
 				z := int64(ctx.Rng.Intn(1000)) + 1000
 				opTerm = fmt.Sprintf("(OModify %s %s)", fragsTerm(p), common.GZ(z))
 				if ctx.Rng.Chance(25) {
@@ -451,7 +459,7 @@ func (h *harness) pathStream(nHist int) {
 				}
 				ctx.Hist("op:modify")
 			case x < 92:
-				p := genPath(ctx.Rng, pre, ctx.Rng.Chance(25), ctx.Hist)
+				p := genPath(ctx.Rng, pre, ctx.Rng.Chance(25), true, ctx.Hist)
 				opTerm = "(ORemove " + fragsTerm(p) + ")"
 				if ctx.Rng.Chance(25) {
 					lisp = "(send b :remove " + pathArg(p) + ")"
@@ -464,7 +472,7 @@ func (h *harness) pathStream(nHist int) {
 				if ctx.Rng.Chance(30) {
 					p = []frag{{kind: 'd'}}
 				} else {
-					p = genPath(ctx.Rng, pre, true, ctx.Hist)
+					p = genPath(ctx.Rng, pre, true, false, ctx.Hist)
 				}
 				opTerm = "(OWalk " + fragsTerm(p) + ")"
 				scope.Set(slip.Symbol("acc"), nil)
